@@ -180,6 +180,26 @@ func genCase(t *rapid.T) Case {
 			continue
 		}
 		var v val.V
+		if gen.Chance(t, "longvalue", 80) {
+			// a value whose printed form is longer than the usual I/O buffers (4 KiB, 64 KiB)
+			size := []int{4090, 4200, 9000, 66000}[gen.Uniform(t, "longsize", 4)]
+			switch gen.Uniform(t, "longkind", 4) {
+			case 0:
+				v = val.S(strings.Repeat("abcdefghij", size/10))
+			case 1:
+				v = val.S("{\"k\": \"" + strings.Repeat("line of text\n", size/13) + "\"}")
+			case 2:
+				xs := make([]val.V, size/4)
+				for j := range xs {
+					xs[j] = val.I(j % 1000)
+				}
+				v = val.V{K: val.Vec, L: xs}
+			default:
+				v = val.L(val.S(strings.Repeat("x y ", size/4)), val.S(gen.Str(t, "longtail", valOpts)))
+			}
+			c.Values[n] = v
+			continue
+		}
 		switch rapid.IntRange(0, 5).Draw(t, "vkind") {
 		case 0, 1:
 			v = val.S(gen.Str(t, "vstr", valOpts))
